@@ -254,15 +254,15 @@ def read_lammps(f: Any, ndim: int) -> SingleSnapshot:
                 atom_index = int(item[0]) - 1
                 particle_type[atom_index] = int(item[1])
                 if ndim == 3:
-                    positions[atom_index, 0] = xlo_bound + float(item[2]) * h0 + float(
+                    positions[atom_index, 0] = xlo + float(item[2]) * h0 + float(
                         item[3]) * h5 + float(item[4]) * h4
-                    positions[atom_index, 1] = ylo_bound + \
+                    positions[atom_index, 1] = ylo + \
                         float(item[3]) * h1 + float(item[4]) * h3
-                    positions[atom_index, 2] = zlo_bound + float(item[4]) * h2
+                    positions[atom_index, 2] = zlo + float(item[4]) * h2
                 elif ndim == 2:
-                    positions[atom_index, 0] = xlo_bound + \
+                    positions[atom_index, 0] = xlo + \
                         float(item[2]) * h0 + float(item[3]) * h5
-                    positions[atom_index, 1] = ylo_bound + float(item[3]) * h1
+                    positions[atom_index, 1] = ylo + float(item[3]) * h1
                 else:
                     logger.info(
                         f"cannot read for {ndim} dimensionality so far")
